@@ -2848,7 +2848,7 @@ int EGLPNUM_TYPENAME_ILLsimplex_pivotin (
 	*basis_mod = 0;
 	if (rcnt <= 0)
 	{
-		EG_RETURN (rval);
+		{ EGLPNUM_TYPENAME_EGlpNumClearVar (alpha); EGLPNUM_TYPENAME_EGlpNumClearVar (fi.totinfeas); EGLPNUM_TYPENAME_EGlpNumClearVar (rs.tz); EGLPNUM_TYPENAME_EGlpNumClearVar (rs.lbound); EGLPNUM_TYPENAME_EGlpNumClearVar (rs.ecoeff); EGLPNUM_TYPENAME_EGlpNumClearVar (rs.pivotval); EG_RETURN (rval); }
 	}
 
 	if (pivot_opt == SIMPLEX_PIVOTINROW)
@@ -2875,7 +2875,7 @@ int EGLPNUM_TYPENAME_ILLsimplex_pivotin (
 		{
 			ILL_IFFREE(clist);
 		}
-		EG_RETURN (rval);
+		{ EGLPNUM_TYPENAME_EGlpNumClearVar (alpha); EGLPNUM_TYPENAME_EGlpNumClearVar (fi.totinfeas); EGLPNUM_TYPENAME_EGlpNumClearVar (rs.tz); EGLPNUM_TYPENAME_EGlpNumClearVar (rs.lbound); EGLPNUM_TYPENAME_EGlpNumClearVar (rs.ecoeff); EGLPNUM_TYPENAME_EGlpNumClearVar (rs.pivotval); EG_RETURN (rval); }
 	}
 
 	/* QSlog("Forcing vars into basis in EGLPNUM_TYPENAME_ILLsimplex_pivotin"); */
